@@ -74,6 +74,9 @@ def equal(a, b):
         return dict(a) == dict(b)
     if isinstance(a, collections.OrderedDict):
         return list(a.items()) == list(b.items())
+    if isinstance(a, collections.Counter):
+        # printed in most_common() order on purpose; Counter equality does not depend on insertion order
+        return set(a.keys()) == set(b.keys()) and all(equal(a[k], b[k]) for k in a)
     if isinstance(a, DT.datetime):
         return a == b and a.utcoffset() == b.utcoffset() and a.fold == b.fold and \
             (a.tzinfo is None) == (b.tzinfo is None) and a.replace(tzinfo=None) == b.replace(tzinfo=None)
@@ -89,6 +92,9 @@ def equal(a, b):
     if isinstance(a, dict):
         return list(a.keys()) == list(b.keys()) and all(equal(a[k], b[k]) for k in a)
     return a == b
+
+
+Reserved = collections.namedtuple('Reserved', ['fn', 'ctx', 'args', 'kwargs', 'value'])
 
 
 def instances(rng, q):
@@ -149,6 +155,14 @@ def instances(rng, q):
         ('purepath', pathlib.PurePosixPath('a/b/c')), ('purepath', pathlib.PurePosixPath('/')), ('purepath', pathlib.PurePosixPath('.')),
         ('purepath', pathlib.PureWindowsPath('C:/x/y')), ('purepath', pathlib.PurePosixPath('/'.join(['segment%d' % i for i in range(15)]))),
         ('purepath', pathlib.PosixPath('rel/path')),
+        # keyword / attribute / field names that are also parameter names of the package's own helpers
+        ('partial', functools.partial(dict, fn=9, ctx=1)), ('partial', functools.partial(dict, args=(1,), kwargs={'k': 1})),
+        ('partial', functools.partial(dict, value=1, self=2, trailing_comment='t', type=int)),
+        ('partial', functools.partial(dict, indent=1, width=2, depth=3, doc=4, cls=5, key=6, default=7)),
+        ('SimpleNamespace', types.SimpleNamespace(fn=1, ctx=2, args=(3,), kwargs={'k': 4}, value=5, self=6, trailing_comment='c')),
+        ('namedtuple', Reserved(1, 2, (3,), {'k': 4}, 5)),
+        ('OrderedDict', collections.OrderedDict(fn=1, ctx=2, args=3)), ('defaultdict', collections.defaultdict(list, fn=[1], ctx=[2])),
+        ('Counter', collections.Counter(fn=2, ctx=1, args=3)), ('exception', KeyError('fn', 'ctx')),
         # counts that cannot be ordered (most_common() raises; Counter.__repr__ itself falls back to insertion order)
         ('Counter', collections.Counter({'a': 1, 's': 'x'})), ('Counter', collections.Counter({'a': 1, 'b': None, 'c': 2})),
         ('Counter', collections.Counter({'a': 1j, 'b': 2})), ('Counter', collections.Counter({'k': [1]})),
